@@ -6,6 +6,7 @@ import (
 	"io"
 	"os"
 	"path"
+	"path/filepath"
 	"strings"
 	"sync"
 
@@ -117,6 +118,11 @@ func c15Replay(i int, raw json.RawMessage) Result {
 		return Result{OK: false, Sig: sig, Observed: obs, Expected: exp, Key: key,
 			Detail: "paths handed to Loader/Cache differ from Canon(" + name + ") = " + canon}
 	}
+	if v.Entry == "includeData" && !v.Dev && v.Depth == 0 {
+		if d := c15Confined(&v); d != "" {
+			return Result{OK: false, Sig: sig, Observed: d, Expected: "nothing from outside the loader's directory", Key: key, Detail: d}
+		}
+	}
 	return Result{OK: true, Key: key}
 }
 
@@ -131,6 +137,52 @@ func c15Sig(v *c15Vec) map[string]interface{} {
 	}
 	return map[string]interface{}{"entry": v.Entry, "abs": v.Abs, "dotdot": has(".."), "dot": has("."),
 		"empty": has(""), "hit": v.Hit > 0, "dev": v.Dev}
+}
+
+var c15OSRoot string
+
+// c15Confined steers a Set over an OSFileSystemLoader with names that spell the loader's own directory, a sibling
+// directory sharing its prefix, and the vector's spelling behind them: whatever is rendered comes from a file
+// below the loader's directory.
+func c15Confined(v *c15Vec) string {
+	if c15OSRoot == "" {
+		root, err := os.MkdirTemp("", "c15os-")
+		if err != nil {
+			return ""
+		}
+		for _, d := range []string{"views", "views-private", "views.bak", "viewsx"} {
+			for _, p := range []string{"a", "b", "a/a", "a/b", "b/a", "b/b"} {
+				f := filepath.Join(root, d, p+".jet")
+				os.MkdirAll(filepath.Dir(f), 0o755)
+				tag := "OUT"
+				if d == "views" {
+					tag = "IN"
+				}
+				os.WriteFile(f, []byte(tag+"["+d+"/"+p+"]"), 0o644)
+			}
+		}
+		os.WriteFile(filepath.Join(root, "views", "zref.jet"), []byte("{{include .}}"), 0o644)
+		c15OSRoot = root
+	}
+	dir := filepath.Join(c15OSRoot, "views")
+	set := jet.NewSet(jet.NewOSFileSystemLoader(dir), jet.WithTemplateNameExtensions([]string{"", ".jet"}))
+	t, err := set.GetTemplate("/zref")
+	if err != nil {
+		return ""
+	}
+	sp := spell(false, v.Segs)
+	for _, name := range []string{dir + "-private/" + sp, dir + ".bak/" + sp, dir + "x/" + sp, dir + "/../views-private/" + sp,
+		"/../views-private/" + sp, "../views-private/" + sp, sp + "/../../views-private/a", dir + "/../../" + sp} {
+		var b strings.Builder
+		func() {
+			defer func() { recover() }()
+			t.Execute(&b, nil, name)
+		}()
+		if strings.Contains(b.String(), "OUT[") {
+			return fmt.Sprintf("OSFileSystemLoader(%q): {{include .}} with the name %q rendered %q, a file outside the directory", dir, name, b.String())
+		}
+	}
+	return ""
 }
 
 // c15Run issues the spelling through the entry point on a real Set with recording
@@ -154,32 +206,43 @@ func c15Run(v *c15Vec) (obs []callRec, herr string) {
 	// resolved against the directory of the template that uses it, every time); skipped when both resolve to
 	// the same file, because the first use would then legitimately fill the cache
 	relEntry := v.Entry != "exec" && v.Entry != "includeIfExists" // those two resolve against the root, wherever they are used
-	if pre := "/pq/rs/zpre"; relEntry && !strings.HasPrefix(name, "/") && path.Join("/pq/rs", name) != canon {
+	prior := func(pre, spelling string) {
+		pq := `"` + spelling + `"`
 		var psrc string
 		switch v.Entry {
 		case "extends", "ParseExtends":
-			psrc = "{{extends " + q + "}}"
+			psrc = "{{extends " + pq + "}}"
 		case "import":
-			psrc = "{{import " + q + "}}"
+			psrc = "{{import " + pq + "}}"
 		case "include", "GetTemplate":
-			psrc = "{{include " + q + "}}"
+			psrc = "{{include " + pq + "}}"
 		case "includeData":
 			psrc = "{{include .}}"
-		case "exec":
-			psrc = "{{exec(" + q + ")}}"
-		case "includeIfExists":
-			psrc = "{{includeIfExists(" + q + ")}}"
 		}
 		mem.Set(pre+v.Exts[0], psrc)
 		if t, err := set.GetTemplate(pre); err == nil {
 			func() {
 				defer func() { recover() }()
-				t.Execute(io.Discard, nil, name)
+				t.Execute(io.Discard, nil, spelling)
 			}()
 		}
 		rec.mu.Lock()
 		rec.calls = nil
 		rec.mu.Unlock()
+	}
+	if relEntry && !strings.HasPrefix(name, "/") && path.Join("/pq/rs", name) != canon {
+		prior("/pq/rs/zpre", name)
+	}
+	// history: another (directory, name) pair whose plain concatenation reads the same as this one's
+	// ("/a" + "b/x" and "/" + "ab/x"): every pair is resolved on its own
+	if relEntry && !strings.HasPrefix(name, "/") && v.Depth > 0 && v.Entry != "GetTemplate" {
+		twinRef, twinName := "/zpre2", "a"+name
+		if v.Depth == 2 {
+			twinRef, twinName = "/a/zpre2", "b"+name
+		}
+		if path.Join(path.Dir(twinRef), twinName) != canon {
+			prior(twinRef, twinName)
+		}
 	}
 	switch v.Entry {
 	case "GetTemplate":
@@ -236,7 +299,14 @@ func c15Run(v *c15Vec) (obs []callRec, herr string) {
 }
 
 func init() {
-	commands["replay-C15"] = func(a []string) int { return replayLoop(a[0], a[1], c15Replay) }
+	commands["replay-C15"] = func(a []string) int {
+		defer func() {
+			if c15OSRoot != "" {
+				os.RemoveAll(c15OSRoot)
+			}
+		}()
+		return replayLoop(a[0], a[1], c15Replay)
+	}
 }
 
 // record-C15 <out.ndjson> <seed> <n>: random long spellings through every entry point;
